@@ -376,6 +376,7 @@ Open Scope string_scope.
 Lemma prog_top_ok : prog_RecursiveCopyOrLinkFile = [
   ("", "info, err := os.Lstat(from)");
   ("(err != nil)", "return err");
+  ("(info.IsDir())", "from = filepath.Clean(from)");
   ("(info.IsDir())", "return WalkMode(from, func(name string, fileMode Mode) error {}, )");
   ("", "return CopyOrLinkFile(from, to, info.Mode(), mode, link, fallback)")
 ].
